@@ -91,7 +91,9 @@ class ExprGen:
                 b = self.bv(w, depth - 1)
             return [op, a, b]
         if k < 72:
-            return [r.choice(["not", "neg"]), self.bv(w, depth - 1)]
+            un = [u for u in ("not", "neg") if self.ok(u)]
+            if un:
+                return [r.choice(un), self.bv(w, depth - 1)]
         if k < 82 and self.ok("ite"):
             return ["ite", self.boolean(depth - 1), self.bv(w, depth - 1), self.bv(w, depth - 1)]
         if k < 88 and w >= 2 and self.ok("concat"):
@@ -196,13 +198,21 @@ class ExprGen:
 DEFAULT_WEIGHTS = {
     "add": 22, "sat": 8, "eval": 16, "batch_eval": 5, "min": 9, "max": 9, "solution": 8, "is_true": 3, "is_false": 3,
     "simplify": 4, "downsize": 2, "branch": 5, "probe": 12, "forget": 2, "gc": 1, "backend_downsize": 1,
+    # off by default, switched on by profiles
+    "merge": 0, "combine": 0, "split": 0, "unsat_core": 0, "pickle": 0, "pickle_expr": 0, "g_truth": 0, "new": 0,
 }
+
+QUERY_KINDS = ("sat", "probe", "eval", "batch_eval", "min", "max", "solution", "is_true", "is_false")
+APPROX = {"SolverVSA", "SolverReplacementVSA"}
 
 
 class HistoryGen:
-    """Generates one record for the solver-history machine."""
+    """Generates one record for the solver-history machine.  Handle bookkeeping (references, lineage, ancestry) is
+    done by a dry Machine so that generator and executor can never disagree about it."""
 
     def __init__(self, seed: int, profile: dict):
+        from .machine import Machine
+
         self.seed = seed
         self.p = profile
         self.r = Rng(derive(seed, "gen"))
@@ -211,33 +221,55 @@ class HistoryGen:
         self.varlist = [list(v) for v in r.choice(shapes)]
         self.vars = {n: w for n, w in self.varlist}
         self.order = [n for n, _ in self.varlist]
-        self.eg = ExprGen(r, self.vars, profile.get("ops_allowed"))
-        self.base = EnumRef(self.vars, self.order)
-        self.refs = []  # per live handle
+        self.flag = "f" if "f" in self.vars else None
+        gen_vars = {n: w for n, w in self.vars.items() if n != self.flag} or self.vars
+        self.eg = ExprGen(r, gen_vars, profile.get("ops_allowed"))
+        self.eg_approx = ExprGen(r, gen_vars, profile.get("approx_ops_allowed", profile.get("ops_allowed")))
+        self.dry = Machine({"config": {"vars": self.varlist}, "ops": []}, None)
         self.ops = []
         self.recent = []  # recently used query expressions (re-query bias)
         self.recent_cs = []
         self.weights = dict(DEFAULT_WEIGHTS)
         self.weights.update(profile.get("weights", {}))
-        # swarm: knock out a random subset of op kinds per run
         if profile.get("swarm", True):
+            keep = set(profile.get("never_swarm_out", ())) | {"add", "eval"}
             for k in list(self.weights):
-                if k not in ("add", "eval") and r.chance(18):
+                if k not in keep and r.chance(18):
                     self.weights[k] = 0
         self.max_handles = profile.get("max_handles", 5)
 
+    # -- handle helpers
+    @property
+    def handles(self):
+        return self.dry.handles
+
+    def emit(self, op):
+        """append the op and apply its structural effect to the dry machine"""
+        self.ops.append(op)
+        if op["op"] in ("new", "branch", "drop", "pickle", "add", "merge", "combine"):
+            from .machine import _Skip
+
+            try:
+                getattr(self.dry, "op_" + op["op"])(op)
+            except _Skip:
+                pass
+
+    def egf(self, h):
+        return self.eg_approx if (h.cls in APPROX or self.p.get("all_approx")) else self.eg
+
     # -- helpers
-    def extras(self, ref):
+    def extras(self, h):
         r = self.r
         pe = self.p.get("extra_pct", 30)
         if not r.chance(pe):
             return []
         k = r.below(100)
+        eg = self.egf(h)
         if k < 70:
-            return [self.eg.constraint()]
+            return [eg.constraint()]
         if k < 90:
-            return [self.eg.constraint(), self.eg.constraint()]
-        return [self.assignment_constraint(self.pick_assignment(ref, "model"))[0]]
+            return [eg.constraint(), eg.constraint()]
+        return [self.assignment_constraint(self.pick_assignment(h.ref, "model"))[0]]
 
     def pick_assignment(self, ref, how):
         r = self.r
@@ -264,21 +296,21 @@ class HistoryGen:
                 cs.append(["eq", ["var", n], ["const", m[i], w]])
         return cs
 
-    def qexpr(self):
+    def qexpr(self, h):
         r = self.r
         if self.recent and r.chance(self.p.get("requery_pct", 45)):
             return r.choice(self.recent)
-        e = self.eg.query()
+        e = self.egf(h).query()
         self.recent.append(e)
         if len(self.recent) > 6:
             self.recent.pop(0)
         return e
 
-    def gen_constraint(self, ref):
+    def gen_constraint(self, h):
         r = self.r
         if self.recent_cs and r.chance(8):
             return r.choice(self.recent_cs)  # duplicate add
-        c = self.eg.constraint(ref)
+        c = self.egf(h).constraint(h.ref)
         self.recent_cs.append(c)
         if len(self.recent_cs) > 8:
             self.recent_cs.pop(0)
@@ -300,9 +332,6 @@ class HistoryGen:
             return 2
         return r.range(1, 20)
 
-    def emit(self, op):
-        self.ops.append(op)
-
     def new_handle(self, cls=None, kw=None):
         r = self.r
         if cls is None:
@@ -313,34 +342,21 @@ class HistoryGen:
             if kwf:
                 kw = dict(r.choice(kwf))
         self.emit({"op": "new", "cls": cls, "kw": kw})
-        self.refs.append(self.base.with_models(self.base.universe))
 
-    def gen_op(self):
+    def exact_arg(self, h, op):
+        """exact= argument for hybrid solvers"""
+        if h.cls == "SolverHybrid":
+            choices = self.p.get("hybrid_exact", [None, True])
+            v = self.r.choice(choices)
+            if v is not None:
+                op["exact"] = v
+
+    def query_op(self, kind, hi, h):
         r = self.r
-        hi = r.below(len(self.refs))
-        ref = self.refs[hi]
-        kinds = [(k, w) for k, w in self.weights.items() if w > 0]
-        kind = r.weighted(kinds)
+        ref = h.ref
         op = {"h": hi}
-        if kind == "add":
-            ncs = 1 if r.chance(80) else r.range(2, 3)
-            cs = [self.gen_constraint(ref) for _ in range(ncs)]
-            # keep most solvers satisfiable most of the time: resample a killer constraint sometimes
-            if r.chance(self.p.get("keep_sat_pct", 70)):
-                for _ in range(4):
-                    t = ref.copy()
-                    for c in cs:
-                        t.add(c)
-                    if t.M:
-                        break
-                    cs = [self.gen_constraint(ref)]
-            op.update(op="add", cs=cs)
-            if len(cs) == 1 and r.chance(30):
-                op["as_list"] = False
-            for c in cs:
-                ref.add(c)
-        elif kind == "sat":
-            op.update(op="sat", extra=self.extras(ref))
+        if kind == "sat":
+            op.update(op="sat", extra=self.extras(h))
         elif kind == "probe":
             how = r.weighted([("model", 5), ("near", 4), ("rand", 2)])
             m = self.pick_assignment(ref, how)
@@ -349,20 +365,20 @@ class HistoryGen:
                 subset = set(r.sample(self.order, r.range(1, len(self.order))))
             op.update(op="sat", extra=self.assignment_constraint(m, subset), probe=how)
         elif kind == "eval":
-            e = self.qexpr()
-            ex = self.extras(ref)
+            e = self.qexpr(h)
+            ex = self.extras(h)
             op.update(op="eval", e=e, n=self.pick_n(ref, e, ex), extra=ex)
         elif kind == "batch_eval":
-            es = [self.qexpr() for _ in range(r.range(1, 3))]
-            ex = self.extras(ref)
+            es = [self.qexpr(h) for _ in range(r.range(1, 3))]
+            ex = self.extras(h)
             nt = len(ref.tuples(es, ex))
             n = r.choice([1, 2, max(1, nt), nt + 1, max(1, nt - 1), r.range(1, 12)])
             op.update(op="batch_eval", es=es, n=n, extra=ex)
         elif kind in ("min", "max"):
-            op.update(op=kind, e=self.qexpr(), signed=r.chance(45), extra=self.extras(ref))
+            op.update(op=kind, e=self.qexpr(h), signed=r.chance(45), extra=self.extras(h))
         elif kind == "solution":
-            e = self.qexpr()
-            ex = self.extras(ref)
+            e = self.qexpr(h)
+            ex = self.extras(h)
             w = width_of(e, self.vars)
             V = sorted(ref.values(e, ex))
             k = r.below(100)
@@ -371,20 +387,60 @@ class HistoryGen:
             elif k < 75:
                 v = r.below(1 << w)
             elif k < 90:
-                v = self.eg.bv(w, 1)
+                v = self.egf(h).bv(w, 1)
             else:
-                v = self.eg.const(w)
+                v = self.egf(h).const(w)
             op.update(op="solution", e=e, v=v, extra=ex)
         elif kind in ("is_true", "is_false"):
-            e = r.choice(self.recent_cs) if (self.recent_cs and r.chance(50)) else self.eg.boolean(1)
-            op.update(op=kind, e=e, extra=self.extras(ref) if r.chance(30) else [])
-        elif kind in ("simplify", "downsize"):
+            e = r.choice(self.recent_cs) if (self.recent_cs and r.chance(50)) else self.egf(h).boolean(1)
+            op.update(op=kind, e=e, extra=self.extras(h) if r.chance(30) else [])
+        self.exact_arg(h, op)
+        return op
+
+    def gen_op(self):
+        r = self.r
+        live = [h for h in self.handles if h.alive]
+        hi = r.below(len(live))
+        h = live[hi]
+        ref = h.ref
+        kinds = [(k, w) for k, w in self.weights.items() if w > 0]
+        kind = r.weighted(kinds)
+        op = {"h": hi}
+        if kind == "add":
+            ncs = 1 if r.chance(80) else r.range(2, 3)
+            cs = [self.gen_constraint(h) for _ in range(ncs)]
+            # keep most solvers satisfiable most of the time: resample a killer constraint sometimes
+            if r.chance(self.p.get("keep_sat_pct", 70)):
+                for _ in range(4):
+                    t = ref.copy()
+                    for c in cs:
+                        t.add(c)
+                    if t.M:
+                        break
+                    cs = [self.gen_constraint(h)]
+            op.update(op="add", cs=cs)
+            if len(cs) == 1 and r.chance(30):
+                op["as_list"] = False
+            self.emit(op)
+            self.sweep(hi)
+            return
+        if kind in QUERY_KINDS:
+            self.emit(self.query_op(kind, hi, h))
+            return
+        if kind in ("simplify", "downsize"):
             op.update(op=kind)
-        elif kind == "branch":
-            if len(self.refs) >= self.max_handles:
-                return self.gen_op()
+            self.emit(op)
+            self.sweep(hi)
+            return
+        if kind == "branch":
+            if len(live) >= self.max_handles:
+                return
             op.update(op="branch")
-            self.refs.append(ref.copy())
+        elif kind == "new":
+            if len(live) >= self.max_handles:
+                return
+            self.new_handle()
+            return
         elif kind == "forget":
             if r.chance(30) or not self.recent:
                 op = {"op": "forget_all"}
@@ -394,9 +450,72 @@ class HistoryGen:
             op = {"op": "gc"}
         elif kind == "backend_downsize":
             op = {"op": "backend_downsize", "which": r.choice(["z3", "z3", "concrete", "vsa"])}
+        elif kind == "g_truth":
+            e = r.choice(self.recent_cs) if (self.recent_cs and r.chance(60)) else self.eg.boolean(r.range(0, 2))
+            op = {"op": r.choice(["g_is_true", "g_is_false"]), "e": e, "how": r.choice(["module", "method"])}
+        elif kind == "merge":
+            op = self.gen_merge(hi, h, live)
+            if op is None:
+                return
+        elif kind == "combine":
+            same = [j for j, x in enumerate(live) if x is not h and x.cls == h.cls]
+            if not same or len(live) >= self.max_handles + 2:
+                return
+            op.update(op="combine", others=r.sample(same, r.range(1, min(2, len(same)))))
+        elif kind == "split":
+            op.update(op="split")
+        elif kind == "unsat_core":
+            op.update(op="unsat_core")
+        elif kind == "pickle":
+            op.update(op="pickle", proto=r.choice([2, 4, 5]), mode=r.choice(self.p.get("pickle_modes", ["replace", "twin"])))
+            if op["mode"] == "twin" and len(live) >= self.max_handles + 1:
+                op["mode"] = "replace"
+        elif kind == "pickle_expr":
+            e = r.choice(self.recent + self.recent_cs) if (self.recent or self.recent_cs) else self.eg.boolean(2)
+            op = {"op": "pickle_expr", "e": e, "proto": r.choice([2, 4, 5])}
         else:
             raise AssertionError(kind)
         self.emit(op)
+
+    def gen_merge(self, hi, h, live):
+        r = self.r
+        same = [j for j, x in enumerate(live) if x is not h and x.cls == h.cls]
+        if not same or len(live) >= self.max_handles + 2:
+            return None
+        others = r.sample(same, r.range(1, min(2, len(same))))
+        group = [h] + [live[j] for j in others]
+        if self.flag and r.chance(65):
+            w = self.vars[self.flag]
+            conds = [["eq", ["var", self.flag], ["const", i, w]] for i in range(len(group))]
+        else:
+            conds = [self.eg.boolean(1) for _ in group]
+        op = {"op": "merge", "h": hi, "others": others, "conds": conds}
+        if r.chance(40):
+            # a true common ancestor, if there is one
+            def chain(x):
+                out = []
+                while x is not None:
+                    out.append(x)
+                    x = self.handles[x.parent] if x.parent is not None else None
+                return out
+
+            common = [a for a in chain(h)[1:] if all(a in chain(g) for g in group[1:]) and a.alive]
+            if common:
+                op["ancestor"] = live.index(r.choice(common))
+        return op
+
+    def sweep(self, hi):
+        """after a mutating op on one handle, probe the *other* handles: a leak shows as a wrong answer there"""
+        r = self.r
+        pct = self.p.get("sweep_pct", 0)
+        live = [h for h in self.handles if h.alive]
+        if pct and len(live) > 1 and r.chance(pct):
+            for _ in range(r.range(1, 2)):
+                oj = r.below(len(live))
+                if oj == hi:
+                    continue
+                kind = r.weighted([("probe", 5), ("eval", 3), ("sat", 1), ("min", 1), ("max", 1)])
+                self.emit(self.query_op(kind, oj, live[oj]))
 
     def config(self):
         r = Rng(derive(self.seed, "cfg"))
@@ -406,24 +525,113 @@ class HistoryGen:
             "reuse": r.chance(p.get("reuse_pct", 25)),
             "lru": r.choice(p.get("lru_sizes", [4, 16, 64, 10000, 10000])),
             "salt": derive(self.seed, "salt") & 0xFFFFFFFF,
-            "prewarm": r.chance(20),
         }
 
     def generate(self):
         r = self.r
         p = self.p
-        self.new_handle()
+        for _ in range(r.range(*p.get("initial_handles", (1, 1)))):
+            self.new_handle()
         lo, hi = p.get("length", (3, 40))
         # many short runs, some long
         n = r.range(lo, min(hi, lo + 9)) if r.chance(55) else r.range(lo, hi)
-        for _ in range(n):
+        guard = 0
+        while len(self.ops) < n and guard < 4 * n:
+            guard += 1
             self.gen_op()
         return {"config": self.config(), "ops": self.ops}
 
+
+ALL_EXACT = [("Solver", 4), ("SolverCacheless", 2), ("SolverComposite", 3), ("SolverReplacement", 2), ("SolverHybrid", 2)]
+FLAG_SHAPES = [
+    [["a", 3], ["b", 3], ["f", 2]],
+    [["a", 2], ["b", 2], ["c", 2], ["f", 2]],
+    [["a", 4], ["b", 2], ["f", 2]],
+    [["a", 3], ["b", 2], ["p", 0], ["f", 2]],
+    [["a", 2], ["b", 2], ["c", 2], ["d", 2], ["f", 2]],
+]
+COMPOSITE_SHAPES = [
+    [["a", 2], ["b", 2], ["c", 2], ["d", 2]],
+    [["a", 2], ["b", 2], ["c", 2], ["d", 2], ["e", 2]],
+    [["a", 3], ["b", 3], ["c", 3]],
+    [["a", 2], ["b", 2], ["c", 2], ["d", 2], ["e", 2], ["g", 2]],
+    [["a", 3], ["b", 2], ["c", 3], ["p", 0]],
+    [["a", 3], ["b", 3], ["c", 2], ["d", 2], ["p", 0]],
+]
+# operations both the bit-vector and the interval domain express without known-unsound transfer functions
+APPROX_OPS = {"add", "sub", "and", "or", "xor", "extract", "concat", "zext", "sext", "ite"}
 
 PROFILES = {
     "C11": {
         "frontends": [("Solver", 6), ("SolverCacheless", 2)],
         "length": (3, 40),
+    },
+    "C12": {
+        "frontends": [("SolverComposite", 1)],
+        "var_shapes": COMPOSITE_SHAPES,
+        "length": (3, 40),
+        "weights": {"branch": 8, "simplify": 6, "split": 2, "combine": 2, "merge": 2},
+        "sweep_pct": 30,
+    },
+    "C13": {
+        "frontends": [("SolverReplacement", 5), ("SolverHybrid", 5)],
+        "length": (3, 30),
+        "hybrid_exact": [None, None, True],
+        "weights": {"pickle": 2, "downsize": 4, "branch": 6},
+        "pickle_modes": ["replace"],
+    },
+    "C13approx": {
+        "frontends": [("SolverHybrid", 5), ("SolverVSA", 2), ("SolverReplacementVSA", 2)],
+        "kw_for": {"SolverHybrid": [{}, {}, {"approximate_first": True}]},
+        "hybrid_exact": [False, False, None],
+        "all_approx": True,
+        "approx_ops_allowed": APPROX_OPS,
+        "ops_allowed": APPROX_OPS,
+        "length": (3, 25),
+        "weights": {"batch_eval": 2, "branch": 4, "simplify": 1},
+    },
+    "C14": {
+        "frontends": ALL_EXACT,
+        "length": (5, 40),
+        "weights": {"branch": 14, "downsize": 4, "simplify": 6, "pickle": 1},
+        "pickle_modes": ["replace"],
+        "never_swarm_out": ("branch",),
+        "sweep_pct": 70,
+        "max_handles": 6,
+    },
+    "C15": {
+        "frontends": [("Solver", 4), ("SolverCacheless", 2), ("SolverComposite", 4), ("SolverHybrid", 2), ("SolverReplacement", 2)],
+        "var_shapes": FLAG_SHAPES,
+        "length": (6, 36),
+        "weights": {"branch": 14, "merge": 9, "combine": 8, "split": 5, "add": 24},
+        "never_swarm_out": ("branch",),
+        "max_handles": 6,
+    },
+    "C16": {
+        "frontends": [("Solver", 4), ("SolverComposite", 4), ("SolverHybrid", 2)],
+        "kw_for": {"Solver": [{"track": True}], "SolverComposite": [{"track": True}], "SolverHybrid": [{"track": True}]},
+        "length": (3, 30),
+        "keep_sat_pct": 25,
+        "weights": {"unsat_core": 18, "add": 30, "branch": 6, "simplify": 5, "eval": 6, "min": 3, "max": 3, "solution": 3,
+                    "batch_eval": 2, "probe": 5},
+        "never_swarm_out": ("unsat_core",),
+        "lru_sizes": [4, 16, 64, 10000],
+    },
+    "C10": {
+        "frontends": ALL_EXACT + [("SolverVSA", 1), ("SolverHybrid", 1)],
+        "initial_handles": (1, 4),
+        "length": (6, 36),
+        "weights": {"is_true": 16, "is_false": 16, "g_truth": 22, "add": 22, "branch": 4, "backend_downsize": 4, "forget": 3,
+                    "eval": 4, "min": 2, "max": 2, "solution": 2, "batch_eval": 1, "probe": 3, "sat": 3, "new": 3},
+        "never_swarm_out": ("g_truth", "is_true", "is_false"),
+        "extra_pct": 20,
+        "hybrid_exact": [None, True],
+        "approx_ops_allowed": APPROX_OPS,
+    },
+    "C18": {
+        "frontends": ALL_EXACT + [("SolverVSA", 1)],
+        "length": (4, 30),
+        "weights": {"pickle": 14, "pickle_expr": 5, "branch": 6},
+        "never_swarm_out": ("pickle",),
     },
 }
